@@ -174,11 +174,22 @@ func runHistory(c *ctx) error {
 		slot int
 		r    int64 // raw reading in the file (calibration 1000/1000)
 	}
+	// a row whose energy column does not parse (the meter caught mid-write): reported and stored as 3
+	const unparse = int64(-1 << 62)
 	energyOf := func(r int64) uint64 {
+		if r == unparse {
+			return 3
+		}
 		if r > -24 && r < 24 {
 			return 2
 		}
 		return uint64(r)
+	}
+	energyText := func(r int64) string {
+		if r == unparse {
+			return []string{"12x", "abc", "1.2.3", "--4"}[rng.Intn(4)]
+		}
+		return fmt.Sprint(r)
 	}
 	for sc := 0; sc < nscn; sc++ {
 		t.Scenario(fmt.Sprintf("history/loop/%d", sc))
@@ -191,7 +202,7 @@ func runHistory(c *ctx) error {
 		var file []rec
 		// (a reading whose low 32 bits are zero, such as -(1<<33), is sent but leaves an empty history
 		// cell: that manifestation of the 32-bit history format has its own scenario below)
-		readings := []int64{0, 5, 23, 24, 30, 31, -30, -5000, 77777, 1 << 20, 1<<31 - 1 - 3, 3000000000, 1<<32 + 5}
+		readings := []int64{0, 5, 23, 24, 30, 31, -30, -5000, 77777, 1 << 20, 1<<31 - 1 - 3, 3000000000, 1<<32 + 5, unparse, unparse}
 		edit := func() {
 			switch k := rng.Intn(10); {
 			case k < 4 || len(file) == 0: // append
@@ -217,7 +228,7 @@ func runHistory(c *ctx) error {
 			var lines []string
 			recs := []hx.J{}
 			for _, x := range file {
-				lines = append(lines, fmt.Sprintf("%d,%d", G+int64(x.slot)*300+int64(rng.Intn(300)), x.r))
+				lines = append(lines, fmt.Sprintf("%d,%s", G+int64(x.slot)*300+int64(rng.Intn(300)), energyText(x.r)))
 				recs = append(recs, hx.J{"slot": x.slot, "val": hx.EValOf(energyOf(x.r))})
 			}
 			if rng.Intn(5) == 0 {
